@@ -24,6 +24,27 @@ let handle kind a =
         | IErr -> "E" in
       let r = gff_attr_run (bytes_of_hex a.(0)) in
       Some (if r = [] then "_" else String.concat ";" (List.map show r))
+  | "cmate" ->
+      (* ';'-joined flag|rid|pos|a|d|b|cf|nf: CIGAR aM dD bM (one deletion feature at read position
+         a + 1 when d > 0); an unplaced record (rid -1) is the 4-base unmapped read *)
+      let field r = Array.of_list (split_on '|' r) in
+      let opt_pos s = if s = "0" then None else Some (n_of_dec s) in
+      let one r =
+        let f = field r in
+        let rid = if f.(1) = "-1" then None else Some (n_of_dec f.(1)) in
+        let a = int_of_string f.(3) and d = int_of_string f.(4) and b = int_of_string f.(5) in
+        let rl = if f.(1) = "-1" then 4 else a + b in
+        let feats = if d > 0 then [FDeletion (n_of_int (a + 1), n_of_int d)] else [] in
+        series_rec (n_of_dec f.(0)) rid (opt_pos f.(2)) (n_of_int rl) feats (n_of_dec f.(6)) (n_of_dec f.(7)) in
+      let rs = List.map one (split_on ';' a.(0)) in
+      let on = function None -> "-1" | Some n -> dec_of_n n in
+      let op = function None -> "0" | Some n -> dec_of_n n in
+      Some (match resolve_view rs with
+            | MPOk vs -> String.concat ";" (List.map (fun (((f, r), p), t) ->
+                           dec_of_n f ^ "," ^ on r ^ "," ^ op p ^ "," ^ dec_of_z t) vs)
+            | MPErr -> "Err:InvalidData"
+            | MPPanic _ -> "Panic"
+            | MPFuel -> "OutOfFuel")
   | _ -> None
 
 let () = run_driver handle
